@@ -182,6 +182,26 @@ def run_case(case, ctx):
                 ctx.violation("C20:correlation_index:nonzero-for-different:%s" % method, "non-equivalent factor sets score exactly 0", desc)
         if R > 1:
             ctx.nontriv(dict(desc, h=float(np.sum(np.abs(F1[0])))))
+        # one of the two sets (or both) already normalised: columns of unit length per matrix (cp_normalize output) or over the stacked
+        # matrices; the index depends on the column directions only, so it equals the index of the un-normalised sets
+        side = gen.choice(rs, ["first", "second", "second", "both"])
+        how = gen.choice(rs, ["per-matrix", "stacked"])
+        if method == "stacked":
+            how = "stacked"     # the stacked columns' directions survive a scale common to all matrices only
+        ctx.count("corrindex_prenormalised/%s-%s" % (side, how))
+
+        def unit(Fs):
+            if how == "per-matrix":
+                return [(f / np.linalg.norm(ref.hp(f), axis=0)).astype(dt) for f in Fs]
+            nst = np.linalg.norm(np.concatenate([ref.hp(f) for f in Fs], 0), axis=0)
+            return [(f / nst).astype(dt) for f in Fs]
+        G1 = unit(F1) if side in ("first", "both") else F1
+        G2 = unit(F2) if side in ("second", "both") else F2
+        s_raw = float(correlation_index(list(F1), list(F2), method=method))
+        s_nrm = float(correlation_index(list(G1), list(G2), method=method))
+        if abs(s_nrm - s_raw) > 1e4 * eps:
+            ctx.violation("C20:correlation_index:scale-invariance:%s" % method, "index %.6g for the raw sets but %.6g when the %s set(s) have unit-length columns (%s)" % (s_raw, s_nrm, side, how),
+                          dict(desc, prenormalised=[side, how]))
     elif g == "error_metrics":
         shp = gen.shape(rs, int(rs.randint(1, 4)), 2, 6)
         y, yp = gen.arr(rs, shp, dt, "gauss"), gen.arr(rs, shp, dt, "gauss")
@@ -249,6 +269,19 @@ def run_case(case, ctx):
         scal = [rs.uniform(0.5, 2, R) * rs.choice([-1, 1], R) for _ in range(order)]
         t = cpm.CPTensor(((w[p] / np.prod(scal, axis=0)).astype(dt), [(f[:, p] * s).astype(dt) for f, s in zip(factors, scal)]))
         refc = cpm.CPTensor((w.copy(), [f.copy() for f in factors]))
+        how_ref = gen.choice(rs, ["object", "object", "grown-object", "grown-attributes", "tuple"])
+        if how_ref == "grown-object":
+            # the reference built up one component first and then grown in place (greedy rank-one updates): it is its current content
+            refc = cpm.CPTensor((w[:1].copy(), [f[:, :1].copy() for f in factors]))
+            refc[1] = [f.copy() for f in factors]
+            refc[0] = w.copy()
+        elif how_ref == "grown-attributes":
+            refc = cpm.CPTensor((w[:1].copy(), [f[:, :1].copy() for f in factors]))
+            refc.factors = [f.copy() for f in factors]
+            refc.weights = w.copy()
+        elif how_ref == "tuple":
+            refc = (w.copy(), [f.copy() for f in factors])
+        ctx.count("permute_reference/" + how_ref)
         as_list = bool(rs.rand() < 0.6)
         before = ref.cp_dense(t.weights, t.factors)[0]
         out, permutation = cpm.cp_permute_factors(refc, [t] if as_list else t)
